@@ -776,7 +776,21 @@ def stream_malformed(r: Run, nrand):
         else:
             toks.insert(i, rng.choice(['#', '$', '..', '[', ')', '"', "'", '=', '->', '}']))
         fam.append(('corrupted', 'any', ''.join(toks)))
+    import lark
+    from bqskit.ir.lang.qasm2.parser import parse as lark_parse
+    kws = set(gen.KEYWORDS) - {'exp'}
     for family, cls, text in fam:
+        if family == 'corrupted':
+            # Lark's contextual lexer reads a keyword as an identifier where only an ID can
+            # come (`qreg qreg[2];`, `gate pi(a) x {}`): outside the model (design_notes)
+            try:
+                tree = lark_parse(text)
+                if any(isinstance(t, lark.Token) and t.type == 'ID' and str(t) in kws
+                       for t in tree.scan_values(lambda v: True)):
+                    ck.bump('keyword_as_identifier_skipped')
+                    continue
+            except Exception:
+                pass
         ck.count(('malformed', sig_key(text)))
         ck.bump('malformed_families', family)
         c, exc = r.impl_decode(text)
